@@ -6,7 +6,7 @@ names="$@"; [ -z "$names" ] && names=$(ls seeded | grep -v SUMMARY)
 fail=0
 for n in $names; do
   pid=${n%-*}
-  out=$(/venv/bin/python tools/seedcheck.py seeded/$n $pid $n --skip-pytest 2>&1 | grep -E "^check" | head -1)
+  out=$(/venv/bin/python tools/seedcheck.py seeded/$n $pid $n --skip-pytest --skip-baseline 2>&1 | grep -E "^check" | head -1)
   echo "$n: $out" | cut -c1-200
   echo "$out" | grep -q "exit 1" || fail=1
 done
